@@ -325,7 +325,7 @@ func compare(sum *tl.Summary, what string, form string, in []byte, got Obs, want
 		// coordinator.  Exactly this deviation is tolerated and counted: the sidecar-free copy reports
 		// Size(with sidecar) - ListSize(sidecar content), which is wrong when the wrapper list's header is longer
 		// than the header a list of the sidecar content alone would have.
-		if len(want.Sc) == 1 && got.NoScSz == len(want.Bin)-scAsList(want.Sc[0]) {
+		if os.Getenv("VERIF_C02_STRICT") == "" && len(want.Sc) == 1 && got.NoScSz == len(want.Bin)-scAsList(want.Sc[0]) {
 			sum.Extra["known_finding_sidecar_size"] = sum.Extra["known_finding_sidecar_size"].(int) + 1
 		} else {
 			bad(fmt.Sprintf("WithoutBlobTxSidecar().Size() = %d, length of that envelope is %d", got.NoScSz, len(want.Pre)))
